@@ -34,6 +34,7 @@ SIG30 = "ModifiedHalfNormal._gradient|dim>1:matrix-returned"
 SIGNAN = "GMRF.logpdf|order2-neumann:logd-NaN"
 SIGIGP = "InverseGamma._gradient|nonpositive-shape-or-scale:finite-gradient-where-logd-NaN"
 SIGSLP = "SmoothedLaplace.gradient|nonpositive-scale:finite-gradient-where-logd-NaN"
+SIGBATCH = "Gaussian._gradient|row-batch:transpose-dropped"
 
 
 # ------------------------------------------------------------------------------------------------
@@ -401,7 +402,20 @@ def _w_invalid_par(which):
     return ("%s: logd = %r but gradient() returns the finite vector %r" % (what, v, o[1])) if fails else None, "%s: logd %r, gradient -> %s" % (what, v, o[0])
 
 
-WITNESS = {SIGIGP: lambda: _w_invalid_par("ig"), SIGSLP: lambda: _w_invalid_par("sl"), SIGNAN: _w_gmrf_nan, SIG7: _w_cmrf, SIG8G: lambda: _w_none("gmrf"), SIG8A: lambda: _w_none("gauss"), SIG8L: lambda: _w_none("lognormal"),
+def _w_batch():
+    from cuqi.distribution import Gaussian
+    G = Gaussian(np.zeros(2), np.array([[2, .25], [.25, .5]]))
+    pts = np.array([[0.5, -0.75], [1.0, 2.0]])
+    single = [np.asarray(G.gradient(p), dtype=float) for p in pts]
+    o1 = observe(lambda: G.gradient(pts[:1]))
+    o2 = observe(lambda: G.gradient(pts))
+    ok = (o1[0] == "matrix" and vclose(np.asarray(o1[1])[:, 0], single[0], 1e-12) and
+          o2[0] == "matrix" and all(vclose(np.asarray(o2[1])[:, j], single[j], 1e-12) for j in range(2)))
+    return (None if ok else "Gaussian.gradient of a (N,2) batch of rows: N=1 -> %s, N=2 -> %s; column j is not the gradient at row j" % (o1[0], o2[0])), \
+        "Gaussian(zeros(2), S).gradient(rows): N=1 -> %s, N=2 -> %s" % (o1[0], o2[0])
+
+
+WITNESS = {SIGBATCH: _w_batch, SIGIGP: lambda: _w_invalid_par("ig"), SIGSLP: lambda: _w_invalid_par("sl"), SIGNAN: _w_gmrf_nan, SIG7: _w_cmrf, SIG8G: lambda: _w_none("gmrf"), SIG8A: lambda: _w_none("gauss"), SIG8L: lambda: _w_none("lognormal"),
            SIG8C: lambda: _w_none("cmrf"), SIG29: _w_prec_vector, SIG30: _w_mhn}
 
 _STATE = {}
@@ -930,6 +944,7 @@ def run(ctx):
         ctx.note("site %s: %s" % (sig, "repaired" if ok else "defect present"))
     cases = []
     cases += gen_gauss_prior(ctx, st)
+    cases += gen_gauss_batch(ctx, st)
     cases += gen_gmrf(ctx, st)
     cases += gen_lik(ctx, st)
     cases += gen_sum(ctx, st)
@@ -1022,6 +1037,46 @@ def coq_gparam(meta):
     if form == "sqrtcov":
         return p, f_diag([1 / (a * a) for a in diag])
     return p, f_diag([a * a for a in diag])
+
+
+def gen_gauss_batch(ctx, st):
+    """Gaussian.gradient on a (N, dim) array of row points (the layout logpdf accepts): column j of the (dim, N) result is the
+    gradient at row j.  N = 1 (what DistributionGallery hands in), N = dim (shape-ambiguous), N = dim + 1"""
+    rng = ctx.rng
+    out = []
+    for form, ptype in (("cov", "matrix"), ("prec", "vector"), ("sqrtprec", "generalmatrix"), ("sqrtcov", "scalar")):
+        for Nlab in ("1", "dim", "dim+1"):
+            n = rng.randint(2, 3)
+            N = {"1": 1, "dim": n, "dim+1": n + 1}[Nlab]
+            val, pcoq, P = gauss_param(rng, form, ptype, n)
+            meta = {"fam": "gauss", "form": form, "ptype": ptype, "param": raw_param(val, ptype), "n": n, "mean": ["v", pv(rvec(rng, n, nonzero=True))],
+                    "rows": [pv(rvec(rng, n)) for _ in range(N)], "x": pv(rvec(rng, n)), "x1": pv(rvec(rng, n)), "batch": True,
+                    "cellname": "gauss/batch/%s-%s/N=%s" % (form, ptype, Nlab)}
+            out.append(case_gauss_batch(meta, st))
+    return out
+
+
+def case_gauss_batch(meta, st):
+    obj, dim = build(meta)
+    rows = np.array([fa(r) for r in meta["rows"]])
+    o = observe(lambda: obj.gradient(rows))
+    singles = [num_grad(logd_of(obj), r) for r in rows]              # oracle: derivative of logd at every row
+    ok = o[0] == "matrix" and np.asarray(o[1]).shape == (dim, len(rows)) and all(vclose(np.asarray(o[1])[:, j], singles[j]) for j in range(len(rows)))
+    pcoq, P = coq_gparam(meta)
+    if ok:
+        M = np.asarray(o[1])
+        expr = " && ".join("check_gauss_prior %s %s %s %s %s %s (ObsVec %s)" % (cbool(st[SIG29]), FORM_COQ[meta["form"]], pcoq, cqm(P), cqv(mean_list(meta["mean"])),
+                                                                                cqv(uv(meta["rows"][j])), cqvec(M[:, j])) for j in range(len(rows)))
+        return Case(expr=expr, meta=meta, cell=meta["cellname"], kind="EXACT")
+    d = "Gaussian.gradient of a (%d,%d) batch of rows: %s; column j is not the derivative of logd at row j" % (len(rows), dim, o[0] if o[0] != "matrix" else "matrix of shape %s" % (np.asarray(o[1]).shape,))
+    sig = "C03|%s|%s" % (meta["cellname"], o[0])
+    if not st[SIGBATCH]:
+        # the known regression: the rows are multiplied as if they were columns (raises unless N = dim)
+        dev = rows - np.asarray(mean_value(meta["mean"]))
+        if (o[0] == "raised" and len(rows) != dim) or (o[0] == "matrix" and len(rows) == dim and
+                                                        vclose(np.asarray(o[1]), -np.array([[float(v) for v in r] for r in P]) @ dev, 1e-9)):
+            sig = SIGBATCH
+    return Case(expr="true" if sig == SIGBATCH else "false", meta=meta, cell=meta["cellname"], kind="EXACT", impl_fail=d, signature=sig)
 
 
 # ---- GMRF ------------------------------------------------------------------------------------------
@@ -1876,8 +1931,46 @@ def gen_gallery(ctx, st):
             if x[0] == 0:
                 x[0] = Fraction(1, 4)
             meta = {"fam": "gallery", "name": name, "x": pv(x), "cellname": "gallery/" + name}
-            out.append(case_gallery(meta))
+            meta["x1"] = pv([rdy(rng, -2, 2, den=(4, 8)) for _ in range(2)])
+            if F(meta["x1"][0]) == 0:
+                meta["x1"][0] = P_(Fraction(1, 4))
+            out += case_gallery(meta)
     return out
+
+
+TAC_GAL = ("cbv [rl_close r_close rad calsom_logd calsom_g1 calsom_g2 donut_logd donut_g1 donut_g2 fun_f funnel_logd funnel_g1 funnel_g2 "
+           "g2_logd g2_d1 g2_d2 banana_y2 banana_logd banana_g1 banana_g2 squiggle_logd squiggle_g1 squiggle_g2 iso_pdf iso_d1 iso_d2 "
+           "mixture_logd mixture_g1 mixture_g2]; repeat split; interval with (i_prec 90).")
+
+
+def gallery_model(name):
+    """Coq application prefixes (logd, g1, g2) of the model of one gallery density, with the constants of the reference
+    (chi-feng's mcmc-demo benchmarks, as documented in cuqi/distribution/_custom.py) written down by the harness"""
+    def inv2(S):
+        P = f_inv(S)
+        return P[0][0], P[0][1], P[1][1]
+    if name == "CalSom91":
+        a = "%s %s" % (cr(0.1), cr(1))
+        return ["calsom_logd " + a, "calsom_g1 " + a, "calsom_g2 " + a]
+    if name == "donut":
+        a = "%s %s" % (cr(2.6), cr(0.033))
+        return ["donut_logd " + a, "donut_g1 " + a, "donut_g2 " + a]
+    if name == "funnel":
+        a = "0 0 3"
+        return ["funnel_logd " + a, "funnel_g1 " + a, "funnel_g2 " + a]
+    if name == "banana":
+        p11, p12, p22 = inv2([[Fraction(1), Fraction(1, 2)], [Fraction(1, 2), Fraction(1)]])
+        a = "%s %s %s 0 4 2 %s" % (cr(p11), cr(p12), cr(p22), cr(0.2))
+        return ["banana_logd " + a, "banana_g1 " + a, "banana_g2 " + a]
+    if name == "squiggle":
+        p11, p12, p22 = inv2([[Fraction(2), Fraction(1, 4)], [Fraction(1, 4), Fraction(1, 2)]])
+        a = "%s %s %s 0 0" % (cr(p11), cr(p12), cr(p22))
+        return ["squiggle_logd " + a, "squiggle_g1 " + a, "squiggle_g2 " + a]
+    if name == "mixture":
+        comp = lambda a_, b_, s_: "(%s, %s, %s)" % (cr(a_), cr(b_), cr(s_))
+        a = "%s %s %s" % (comp(-1.5, -1.5, 0.8 ** 2), comp(1.5, 1.5, 0.8 ** 2), comp(-2, 2, 0.5 ** 2))
+        return ["mixture_logd " + a, "mixture_g1 " + a, "mixture_g2 " + a]
+    return None
 
 
 def case_gallery(meta):
@@ -1887,10 +1980,28 @@ def case_gallery(meta):
         obj = DistributionGallery(meta["name"])
     xx = fa(meta["x"])
     o = observe(lambda: obj.gradient(xx))
-    fin = np.isfinite(logd_of(obj)(xx))
+    f = logd_of(obj)
+    fin = np.isfinite(f(xx))
     d, sig = verdict_case(meta, o, obj, xx, 2, insupp=bool(fin), hs=[0.25, 0.25])
-    # not modelled in Coq (the gallery formulas are user-level closed forms): the oracle alone speaks
-    return Case(expr="true", meta=meta, cell=meta["cellname"], kind="DECISION", trivial=False, impl_fail=d, signature=sig)
+    gm = gallery_model(meta["name"])
+    if gm is not None and fin and o[0] == "raised" and d is None:
+        # a shipped closed-form gradient that refuses: not a wrong vector, but the model says a vector comes back
+        d = "DistributionGallery(%r).gradient(%s) raises %s although the density ships a closed-form gradient" % (meta["name"], xx.tolist(), o[1])
+        sig = SIGBATCH if (not state()[SIGBATCH] and meta["name"] in ("squiggle", "banana", "mixture") and o[1] == "ValueError") else "C03|%s|raised" % meta["cellname"]
+        return [Case(expr="true" if sig == SIGBATCH else "false", meta=meta, cell=meta["cellname"], kind="DECISION", impl_fail=d, signature=sig)]
+    if gm is None or o[0] != "vec" or not fin:
+        # BivariateGaussian is a Gaussian (modelled in the Gaussian cells): the oracle alone speaks here
+        return [Case(expr="true", meta=meta, cell=meta["cellname"], kind="DECISION", trivial=False, impl_fail=d, signature=sig)]
+    x1 = fa(meta.get("x1", meta["x"]))
+    dobs = f(x1) - f(xx)
+    pt = "%s %s" % (cr(F(meta["x"][0])), cr(F(meta["x"][1])))
+    pt1 = "%s %s" % (cr(F(meta.get("x1", meta["x"])[0])), cr(F(meta.get("x1", meta["x"])[1])))
+    expr = "(rl_close %s [%s %s; %s %s] %s)%%R" % (RTOL, gm[1], pt, gm[2], pt, crv(o[1]))
+    expr2 = "(r_close %s (%s %s - %s %s) %s)%%R" % (RTOL, gm[0], pt1, gm[0], pt, cr(dobs))
+    m2 = dict(meta)
+    m2["what"] = "logd-difference"
+    return [Case(expr=expr, meta=meta, cell=meta["cellname"], kind="ENCLOSURE", tac=TAC_GAL, impl_fail=d, signature=sig),
+            Case(expr=expr2, meta=m2, cell=meta["cellname"] + "/logd", kind="ENCLOSURE", tac=TAC_GAL)]
 
 
 # ---- attribute re-assignment histories: the gradient must be the derivative of the CURRENT logd ---------------------------
@@ -2123,6 +2234,8 @@ def _rerun(meta):
     """re-run one stored case: list of fresh Case objects"""
     st = state()
     fam = meta.get("fam")
+    if fam == "gauss" and meta.get("batch"):
+        return [case_gauss_batch(meta, st)]
     if fam == "gauss":
         return [case_gauss_prior(meta, st)]
     if fam == "gmrf":
@@ -2143,7 +2256,7 @@ def _rerun(meta):
     if fam == "lognormal-full":
         return [case_lognormal_full(meta, st)]
     if fam == "gallery":
-        return [case_gallery(meta)]
+        return case_gallery(meta)
     if fam == "large":
         return [case_large(meta)]
     return []
